@@ -9,6 +9,18 @@ CHECKS = {
    text="TLC enumerates configurations x stored subsets x storage orders x queries x widths x depths of CheckCases.tla, checks on the model that the engine design equals RefSem when limits are not binding (and that RefSem agrees with an independent stratified fixpoint), and every enumerated case is replayed on the real engine (sqlite, real parser, real SQL) undisturbed and under seeded delay schedules; the answer must equal RefSem whenever the spec says the limits are not binding.",
    note="Bounded: six configuration families with universes of 7-10 tuples (all subsets in the thorough tier, a seeded sample in the quick tier), depths 1..8, widths {1,2,3,100}; schedules are perturbed, not enumerated; sqlite only.",
    technique="TLA+ model checking (TLC) + spec-generated cases replayed on the real engine", ref="4/C01"),
+ "C02": dict(
+   text="On the model (TLC over CheckCases.tla): the three-valued engine never answers allowed where RefSem denies, at any depth or width. On the real engine: every enumerated case at every depth 1..Dmax and width, plus out-of-range request depths and a second server with a lower global depth; allowed must imply RefSem allowed, and (r, g) must answer as (eff(r, g)) does. The recorded fail-open finding (unknown collapses below a negation) is matched by exact agreement with the as-is model.",
+   note="Same bounds as C01. Attribution of the known finding needs the as-is engine model to be exact; model drift is counted in the evidence.",
+   technique="TLA+ model checking (TLC) + spec-generated cases replayed on the real engine", ref="4/C02"),
+ "C03": dict(
+   text="Spec-generated cases are replayed with the k-th storage call of the check failing, for every k in 1..N+1 (N counted on the fault-free run), transiently, persistently and with context.Canceled, through the engine and through engine/gRPC/REST batch check; the result must be an error or the fault-free answer, never allowed when the fault-free answer is denied, never allowed together with an error.",
+   note="Faults are injected at the Manager/Traverser interface (EngineDependencies), not inside the SQL driver; a seeded sample of stored subsets per family in both tiers.",
+   technique="TLC-generated cases + exhaustive fault-position enumeration on the real engine", ref="4/C03"),
+ "C15": dict(
+   text="Checkgroup.tla models the channel protocol of the concurrent checkgroup statement by statement; TLC checks all interleavings for at-most-one-in-flight, result soundness, and under fairness plus eventual context release that every goroutine exits. On the real engine, spec-generated cases are run with the context cancelled before the call and at the gate before every storage call, and with every storage call failing: the call must return, the storage calls must stay within the spec's exhaustive-evaluation bound, and after release no goroutine of the check may remain (goroutine dumps).",
+   note="Checkgroup.tla: up to 4 adds, one caller. 'Returns' uses a 10 s grace period; goroutine accounting polls dumps for up to 5 s.",
+   technique="TLA+ model checking of the checkgroup protocol (safety + liveness) + cancellation/fault-position enumeration on the real engine", ref="4/C15"),
 }
 NOT_YET = "check not built yet in this session (work in progress, see DESIGN.md section 12)"
 
